@@ -56,26 +56,47 @@ def Agent.time (a : Agent) (now : Nat) : Nat := (now - a.bootAt) / 10
 def inWindow (a : Agent) (now boots time : Nat) : Bool :=
   boots == a.boots && decide (time ≤ a.time now + 150) && decide (a.time now ≤ time + 150)
 
-/-- one request: discover if nothing is cached, then send with the extrapolated engine time.
-    `ctx` is the configured context engine id (empty = use the discovered one). -/
+/-- the wire form of a request sent with the cached discovery data `c` at instant `now` -/
+def sendWith (a : Agent) (now : Nat) (ctx : Bytes) (c : Cached) : Wire × Bool :=
+  let time := c.time + (now - c.stamp) / 10
+  let iw := inWindow a now c.boots time
+  (.req c.engineId (if ctx == [] then c.engineId else ctx) c.boots time iw, iw)
+
+/-- what a discovery at instant `now` caches -/
+def discover (s : St) : Cached := ⟨s.agent.engineId, s.agent.boots, s.agent.time s.now, s.now⟩
+
+/-- one request (`Client._send`): discover if nothing is cached, then send with the extrapolated
+    engine time.  An authenticated request outside the agent's window is answered by a
+    notInTimeWindow report: `V3MPM.decode` forgets the discovery data and `_send` sends the request
+    once more, which starts with a new discovery.  `ctx` is the configured context engine id
+    (empty = use the discovered one). -/
 def request (auth : Bool) (ctx : Bytes) (s : St) : St × List Wire :=
   let (c, pre) : Cached × List Wire := match s.disco with
     | some c => (c, [])
-    | none => (⟨s.agent.engineId, s.agent.boots, s.agent.time s.now, s.now⟩, [.probe])
-  let time := c.time + (s.now - c.stamp) / 10
-  let iw := inWindow s.agent s.now c.boots time
-  -- an authenticated request outside the window is answered by a notInTimeWindow report: the call
-  -- raises and `V3MPM.decode` forgets the discovery data (the next request discovers again)
-  ({ s with disco := if auth && !iw then none else some c },
-   pre ++ [.req c.engineId (if ctx == [] then c.engineId else ctx) c.boots time iw])
+    | none => (discover s, [.probe])
+  let (w, iw) := sendWith s.agent s.now ctx c
+  if auth && !iw then
+    let c' := discover s
+    let (w', iw') := sendWith s.agent s.now ctx c'
+    ({ s with disco := if iw' then some c' else none }, pre ++ [w, .probe, w'])
+  else
+    ({ s with disco := some c }, pre ++ [w])
+
+/-- a request during which every discovery reply is refused (foreign message id / no bindings):
+    nothing can be cached; with valid cached data the request itself goes through, unless the
+    agent answers notInTimeWindow — then the repeated request fails in its discovery -/
+def requestBad (auth : Bool) (ctx : Bytes) (s : St) : St × List Wire :=
+  match s.disco with
+  | none => (s, [.probe])
+  | some c =>
+    let (w, iw) := sendWith s.agent s.now ctx c
+    if auth && !iw then ({ s with disco := none }, [w, .probe]) else (s, [w])
 
 def step (auth : Bool) (ctx : Bytes) (s : St) : Ev → St × List Wire
   | .request => request auth ctx s
   | .advance dt => ({ s with now := s.now + dt }, [])
   | .reboot => ({ s with agent := { s.agent with boots := s.agent.boots + 1, bootAt := s.now } }, [])
-  | .requestBadReply => match s.disco with
-    | none => (s, [.probe])
-    | some _ => request auth ctx s
+  | .requestBadReply => requestBad auth ctx s
 
 def run (auth : Bool) (ctx : Bytes) : St → List Ev → St × List Wire
   | s, [] => (s, [])
